@@ -48,7 +48,9 @@ def int_values(code, n):
     return sorted(vals)
 
 
-FLOAT_VALUES = [-2.5, 0.0, 0.125, 1.0, 7.75, 16777216.0]
+# (all exactly representable in single precision; +-inf are float32 values)
+FLOAT_VALUES = [-2.5, 0.0, float("inf"), 0.125, float("-inf"), 1.0, 7.75,
+                16777216.0]
 
 
 class Domain(object):
@@ -102,6 +104,9 @@ class Domain(object):
                 vs = ["v%d" % j for j in range(nv)]
             elif vfl == "tv":
                 vs = [TV(j) for j in range(nv)]
+            elif vfl == "fset":
+                # unequal but unordered (neither < nor >) values
+                vs = [frozenset([j]) for j in range(nv)]
             else:
                 raise ValueError(vfl)
             if cfg.get("vnone") and vfl != "tv":
@@ -181,6 +186,8 @@ def _detach(x):
         return ("t",) + tuple(_detach(y) for y in x)
     if isinstance(x, bytes):
         return ("b", x.hex())
+    if isinstance(x, frozenset):
+        return ("fs",) + tuple(sorted(x))
     return x
 
 
@@ -222,7 +229,7 @@ def draw_domain_cfg(rng, fam=None, hk=False, small=True):
             cfg["kflavor"] = rng.choice(["int", "int", "str", "tuple"])
             cfg["none"] = rng.random() < 0.4
     if fam[1] == "O":
-        cfg["vflavor"] = rng.choice(["int", "str"])
+        cfg["vflavor"] = rng.choice(["int", "str", "fset"])
         cfg["vnone"] = rng.random() < 0.3
     return cfg
 
